@@ -1372,9 +1372,14 @@ pub (in crate::llir::lower) fn assign_registers(
     // FIXME: This might be too trigger happy and will fire on some innocent code.
     // However, we need SOMETHING to protect the user from overwriting `ARG_A` without realizing that
     // it is already in use.
+    // (sorted, so that the order of the warnings does not depend on hash map iteration order)
+    let mut clashing_names_for_regs = clashing_names_for_regs.into_iter().collect::<Vec<_>>();
+    clashing_names_for_regs.sort_by_key(|&(reg, _)| reg);
     for (reg, used_names) in clashing_names_for_regs {
         if used_names.len() > 1 {
             let mut diag = warning!("register {} used under multiple names", stringify_reg(reg));
+            let mut used_names = used_names.into_iter().collect::<Vec<_>>();
+            used_names.sort_by_key(|(_, data)| data.span);
             for (_, UsedNameData { span, note }) in used_names {
                 diag.primary(span, format!(""));
                 if let Some(note) = note {
